@@ -20,7 +20,13 @@ def threaded(calls: list, nthreads: int, seed: int) -> dict:
     import threading
     from checks.c11 import one_call
 
+    import audit
+    audit.import_all()
+    memo = audit.install_memo()
+    base = audit.snapshot()
     seq = [one_call(c, {"gc": False}) for c in calls]
+    memo.generation += 1          # what the sequential pass left in the memo table belongs to nobody now
+    memo.foreign_reads.clear()
     sys.setswitchinterval(1e-6)
     r = random.Random(seed)
     assign = [r.randrange(nthreads) for _ in calls]
@@ -44,7 +50,7 @@ def threaded(calls: list, nthreads: int, seed: int) -> dict:
         t.join()
     sys.setswitchinterval(0.005)
     diffs = [i for i in range(len(calls)) if results[i] != seq[i]]
-    return {"ok": True, "diffs": diffs, "errors": errors,
+    return {"ok": True, "diffs": diffs, "errors": errors, "residue": audit.residue(base), "foreign": list(memo.foreign_reads[:3]),
             "detail": [{"call": calls[i][0], "seq": {k: v for k, v in seq[i].items() if k in ("ok", "err")},
                         "par": {k: v for k, v in (results[i] or {}).items() if k in ("ok", "err")},
                         "part": next((k for k in ("ok", "err", "ops", "text", "sm") if (results[i] or {}).get(k) != seq[i].get(k)), "?")}
@@ -52,8 +58,10 @@ def threaded(calls: list, nthreads: int, seed: int) -> dict:
 
 
 def main() -> None:
-    run = Run("C12", "exploration")
+    run = Run("C12", "proof")
     run.forbid()
+    run.require_vo(["Hist/Frame.v"])
+    run.props("Props/C12.v")
     q = run.tier == "quick"
     r = random.Random(f"C12-{run.seed}")
     texts = []
@@ -70,6 +78,7 @@ def main() -> None:
         calls = [r.choice(pool) for _ in range(n)]
         jobs.append((calls, r.choice([2, 4, 8]), r.randrange(10 ** 6)))
     outs = run_impl([("checks.c12:threaded", c, n, s) for c, n, s in jobs], chunksize=1)
+    owner_broken = None
     for (calls, n, s), o in zip(jobs, outs):
         run.case([n, s, [c[0] for c in calls]], nontrivial=True)
         if not o.get("ok"):
@@ -82,6 +91,15 @@ def main() -> None:
             run.fail(f"differs-under-concurrency:{d['call']}:{d['part']}", f"{len(o['diffs'])} of {len(calls)} calls return something else than alone: {d}",
                      {"calls": calls, "threads": n, "seed": s})
         run.count("stress-runs:" + ("ok" if not o["diffs"] and not o["errors"] else "FAIL"))
+        run.count("ownership-conditions:" + ("ok" if not o["residue"] and not o["foreign"] else "BROKEN"))
+        if o["foreign"] and owner_broken is None:
+            owner_broken = ("step_reads_own", f"a thread reads memo entries written by another thread or an earlier pass: {o['foreign'][:2]}",
+                            {"calls": calls, "threads": n, "seed": s})
+        if o["residue"] and owner_broken is None:
+            owner_broken = ("step_writes_own", f"shared values differ from start-up after the threads finished: {o['residue'][:5]}",
+                            {"calls": calls, "threads": n, "seed": s})
+    if owner_broken is not None:
+        run.correspondence_broken("ownership condition " + owner_broken[0] + " of Hist/Frame.v (Schedules)", owner_broken[1], owner_broken[2])
     run.sample({"threads": jobs[0][1], "calls": [c[0] for c in jobs[0][0]]})
     run.assume("CPython thread switches inside antlr4 / igraph internals can only be provoked (sys.setswitchinterval(1e-6)), not enumerated")
     run.finish(rule="2/4/8 threads, random assignment of 8-24 mixed compile/decompile calls (valid and failing inputs) to threads, switch "
